@@ -457,7 +457,9 @@ def run(ctx: Ctx) -> None:
         for i, (prog, top) in enumerate(gen(ctx, hrng)):
             if ctx.out_of_time():
                 break
-            check_history(ctx, prog, top, "corpus-" + name, sample=(i == 0 and name == "hoist"))
+            # the exact model is the expensive half of a case: every hoist case, every third of the others
+            check_history(ctx, prog, top, "corpus-" + name, sample=(i == 0 and name == "hoist"),
+                          model=name == "hoist" or i % 3 == 0)
     t1 = time.time()
     # -- 2. one-circuit programs
     N = ctx.n(300, 8000)
@@ -499,12 +501,12 @@ def run(ctx: Ctx) -> None:
                 ctx.disagreement(sprobs[0], rep)
     t2 = time.time()
     # -- 3. random histories
-    for i in range(ctx.n(220, 6000)):
+    for i in range(ctx.n(400, 12000)):
         if ctx.out_of_time():
             break
         prog, top = hg.random_history(ctx, hrng)
         nontriv = any(op[0] in ("swaps", "add") for op in prog)
-        check_history(ctx, prog, top, "random", nontriv, sample=i == 0, model=i % 2 == 0)
+        check_history(ctx, prog, top, "random", nontriv, sample=i == 0, model=i % 4 == 0)
     ctx.extra["stream_wall_s"] = {"corpus": round(t1 - t0, 1), "one-circuit": round(t2 - t1, 1),
                                   "histories": round(time.time() - t2, 1)}
 
